@@ -32,6 +32,7 @@ const (
 	classUnionUnmatched  = "nonnull-union-unmatched-member-null"
 	classTypenameLeak    = "union-typename-leaks-into-shared-fragment"
 	classRenamedMember   = "union-renamed-member-panics"
+	classBatchTMNull     = "batch-textmarshaler-missing-entry-panics"
 )
 
 // recoveringScheduler delegates to thunder's own scheduler; it only adds a
@@ -73,7 +74,7 @@ func TestCheck(t *testing.T) {
 	run.Assume("argument literals for advertised scalars: Time as RFC 3339 string, bytes as base64 string, unsigned ints as non-negative; pagination arguments other than a small `first` are not passed (their values carry cursor/sort semantics)")
 	run.Assume("a by-construction-valid query uses unique response names except for identical (name,args) duplicates; fragments on object types always carry the enclosing type as type condition")
 	nq := run.N(40, 100)
-	n := run.N(150, 10000)
+	n := run.N(1000, 20000)
 	run.Each(n, 8, func(i int) {
 		fmt.Printf("CASE %d\n", i)
 		l := &local{counts: map[string]int{}}
@@ -117,6 +118,12 @@ func runSchema(run *vlib.Run, l *local, i, nq int) {
 	s := newSchemaInst(i, run.Rand("schema", i))
 	js, built, err := tryBuild(s)
 	if err != nil {
+		if s.feats["renamed_union_member"] {
+			// a builder that refuses this shape puts it outside the quantifier
+			// ("all Go type shapes the builder accepts")
+			l.add("schema_refused_by_builder:renamed_union_member", 1)
+			return
+		}
 		run.Broken(fmt.Sprintf("case %d: generated schema does not build: %v\n%s", i, err, vlib.Trunc(s.shape, 2000)))
 		return
 	}
@@ -325,8 +332,11 @@ func evalValid(run *vlib.Run, l *local, i, qi int, s *schemaInst, adv *advSchema
 	usedDoc, usedText := doc, text
 	if len(st.panics) > 0 {
 		class := ""
-		if len(s.renamed) > 0 && selectsUnion(doc, s.renamed) {
+		switch {
+		case len(s.renamed) > 0 && selectsUnion(doc, s.renamed):
 			class = classRenamedMember
+		case st.tmOmitted.Load():
+			class = classBatchTMNull
 		}
 		l.add("execute_panicked", 1)
 		run.Violation(i, class, witness(i, qi, s, text, map[string]interface{}{
@@ -372,7 +382,12 @@ func evalValid(run *vlib.Run, l *local, i, qi int, s *schemaInst, adv *advSchema
 			}
 		}
 		if xerr != nil {
-			if st.enumOmitted.Load() {
+			switch {
+			case len(st.panics) > 0 && len(s.renamed) > 0 && selectsUnion(doc, s.renamed):
+				class = classRenamedMember
+			case len(st.panics) > 0 && st.tmOmitted.Load():
+				class = classBatchTMNull
+			case len(st.panics) == 0 && st.enumOmitted.Load():
 				class = classBatchEnumNull
 			}
 			l.add("execute_failed", 1)
